@@ -21,6 +21,8 @@ checks = {
          "Reduced claim: the forward rounding-error bound of the property is NOT decided (FP multiplication is out of reach of the solvers, DESIGN.md s.1); it follows from the structural identity by the textbook summation lemma.", "6.C09"),
  "C16": ("Clone of all nine cloneable types on arbitrary well-formed geometries: equal in layout, stride, SRID, nil-ness, lengths and every bit; no backing array (flat, ends, every endss row, bounds min/max) is the same heap object as the original's; writes/Push/Reverse on either side invisible through the other (also with spare capacity).",
          "Sharing is decided on heap-object identity inside the executor, which covers every later mutation sequence, not only the ones executed.", "6.C16"),
+ "C20": ("xy.SimplifyFlatCoords, modular: (1) lemma HC20_Distance - the unexported distanceFromSegmentSquared equals the exact squared point-segment distance (division-free specification, three projection cases, extra ordinates ignored) for ALL REAL ordinates in [-2^10,2^10] (superset of the integer grid), decided by z3's nlsat; (2) HC20_Worker - with that function replaced by an uninterpreted D(p;a,b)>=0, every sequence of n<=6|7 points, stride 2,3(,5), every threshold k/4 in [0,2048] or 0: returned indexes strictly increase, contain 0 and n-1, every omitted point has D<=threshold^2 w.r.t. its retained neighbours (threshold 0: D=0, i.e. exactly on the segment), simplifying the result again removes nothing, the interval stack never under/overflows, input not written; (3) HC20_Simplify - the same end to end without the summary for n<=3|4.",
+         "Ideal-arithmetic claim: the division inside distanceFromSegmentSquared is followed in exact real arithmetic; rounding near ties and ordinates whose products are inexact are outside the claim, as are n beyond the bound.", "6.C20"),
 }
 
 props = [json.loads(l) for l in open('/verif/properties.jsonl')]
